@@ -165,3 +165,21 @@ def simplify(x):
     if is_sym(x):
         return z3.simplify(x)
     return x
+
+
+def Len(x):
+    """length of a byte string in either representation"""
+    if hasattr(x, 'length') and hasattr(x, 'arr'):
+        return x.length
+    return len(x)
+
+
+def AllBytes(x, value):
+    """every byte of x equals value"""
+    if hasattr(x, 'length') and hasattr(x, 'arr'):
+        i = z3.Int('__i')
+        return z3.ForAll([i], z3.Implies(z3.And(i >= 0, i < x.length), z3.Select(x.arr, x.off + i) == value))
+    if isinstance(x, (bytes, bytearray)):
+        return bytes(x) == bytes([value]) * len(x)
+    from . import values as V
+    return And(*[Eq(b, value) for b in V.items_of(x)]) if len(x) else True
